@@ -58,7 +58,8 @@ def relation(src: str, dst: str) -> str:
 
 
 def fname(pkg: str) -> str:
-    return pkg.replace(".", "_") or "root"
+    # injective (a.b and a_b are different packages in the alias-collision shapes)
+    return ("p_" + pkg.replace("_", "-u").replace(".", "-d")) if pkg else "root"
 
 
 def defs_proto(pkg: str, idx: int) -> str:
@@ -282,7 +283,7 @@ def targets(ctx):
             found = validate(c, src_list, case["wkt"])
             seen, fails = set(), []
             for cl, where, d in found:
-                sig = f"all|{cl}|{where}"
+                sig = f"all:{case['all']}|{cl}|{where}"
                 if sig not in seen:
                     seen.add(sig)
                     fails.append(Failure(cl, sig, f"{case['all']}: {d}"))
